@@ -485,7 +485,11 @@ func TestCheck(t *testing.T) {
 				}
 			}
 		}
-		c.Rapid("hist-"+kind, c.Pick(5000, 80000), func(t *rapid.T) *vt.Failure {
+		ncases := c.Pick(5000, 80000)
+		if win {
+			ncases = c.Pick(2500, 30000)
+		}
+		c.Rapid("hist-"+kind, ncases, func(t *rapid.T) *vt.Failure {
 			base := rapid.SampledFrom(bases).Draw(t, "base")
 			cs := Case{FS: kind, Base: base}
 			in, err := newInst(kind, base)
